@@ -131,12 +131,12 @@ Lemma C03c_F2_refuted :
   snd (sstep (srun [OResolve None (NQn q)]) (OResolve None (NStr (qn_str q)))) = ObQn None.
 Proof. split; vm_compute; reflexivity. Qed.
 
-(* C03-F3: add_namespace with an empty prefix next to an adopted default *)
+(* C03-F3: add_namespace with an empty prefix, then a default namespace *)
 Definition f3_ops : list nsop :=
-  [OResolve None (NQn (mkQn (mkNs "" "http://a/") "e1")); OAddNs None "" "http://b/"].
+  [OAddNs None "" "http://b/"; OSetDefault None "http://c/"].
 Lemma C03c_F3_refuted :
   let q := mkQn (mkNs "" "http://b/") "e2" in
   snd (sstep (srun f3_ops) (OResolve None (NQn q))) = ObQn (Some q) /\
   snd (sstep (srun (f3_ops ++ [OResolve None (NQn q)])) (OResolve None (NStr "e2")))
-    = ObQn (Some (mkQn (mkNs "" "http://a/") "e2")).
+    = ObQn (Some (mkQn (mkNs "" "http://c/") "e2")).
 Proof. split; vm_compute; reflexivity. Qed.
